@@ -322,6 +322,7 @@ struct ReadSpec
     long sub_x = 0, sub_y = 0, sub_w = 0, sub_h = 0; // image_read_settings sub-rectangle (0 = whole)
     bool prefill = true;
     bool meta = false; // ask the reader for all optional metadata (formats whose settings offer it)
+    unsigned skipmask = 0; // scanline entry: rows (mod 16) that are stepped over without being dereferenced (reader.skip)
 };
 
 template <class Tag>
@@ -460,6 +461,7 @@ struct Reader
                 long cw = std::min(w, fit);
                 for (; it != end && row < h; ++it, ++row)
                 {
+                    if ((s.skipmask >> (row % 16)) & 1u) continue; // not dereferenced: the iterator calls reader.skip()
                     unsigned char* rowp = *it;
                     if (cw > 0)
                         gil::copy_pixels(gil::interleaved_view((std::size_t)cw, 1, (xit_t)rowp, (std::ptrdiff_t)reader._scanline_length),
